@@ -13,6 +13,7 @@ pub mod cell;
 pub mod futex;
 pub mod stats;
 
+pub mod c40;
 pub mod c41;
 pub mod c42;
 pub mod c43;
@@ -35,6 +36,7 @@ impl Scenario {
 /// The scenarios of a named model for the given parameters (`None`: unknown model).
 pub fn scenarios(model: &str, params: &[i64]) -> Option<Vec<Scenario>> {
     match model {
+        "c40" => Some(c40::scenarios(params)),
         "c41" => Some(c41::scenarios(params)),
         "c42" => Some(c42::scenarios(params)),
         "c43" => Some(c43::scenarios(params)),
